@@ -35,7 +35,9 @@ ObsChecks(o) == <<
     <<"C01.Contiguous", \A h \in Hs(o) : HasBlock(o, h) /\ BlockAt(o, h).hh = h /\ BlockAt(o, h).cid, "a height up to the chain height has no block, or a block of another height / chain">>,
     <<"C01.Linked", \A h \in Hs(o) : IF h = o.ih THEN BlockAt(o, h).prev = "" ELSE BlockAt(o, h).prev = BlockAt(o, h - 1).hash, "previous-header hash">>,
     <<"C01.TimeMonotone", \A h \in Hs(o) : h > o.ih => BlockAt(o, h).t >= BlockAt(o, h - 1).t, "block timestamped earlier than its predecessor">>,
-    <<"C01.AppRoot", \A h \in Hs(o) : BlockAt(o, h).appok /\ BlockAt(o, h).app = RootBefore(o, h), "header state root is not the root after all earlier blocks">>,
+    <<"C01.AppRoot", \A h \in Hs(o) : BlockAt(o, h).appok /\ BlockAt(o, h).app = RootBefore(o, h)
+                                      /\ (("replay" \in DOMAIN BlockAt(o, h)) => BlockAt(o, h).replay # "bad"),
+        "header state root is not the root after all earlier blocks (by the root book, or by replaying the stored chain into a fresh execution layer)">>,
     <<"C01.DataCommit", \A h \in Hs(o) : BlockAt(o, h).dh /\ BlockAt(o, h).meta = "ok", "data hash / metadata does not commit to the stored transactions">>,
     <<"C01.Signed", \A h \in Hs(o) : BlockAt(o, h).sig = "P" /\ BlockAt(o, h).ssig = "P", "committed block not signed by the genesis proposer">>,
     <<"C01.FromBatch", o.height >= o.ih => Embeds(o, o.ih + 1, 1, taken), "committed blocks are not built from the handed-out batches in order">>,
